@@ -292,3 +292,30 @@ func impliesSome(v ssa.Value, want bool, pred func(Rel) bool, depth int) bool {
 	}
 	return false
 }
+
+// NaturalLoops returns the natural loop of every back edge of fn (an edge whose target dominates its source): the
+// target (header) and every block that reaches the source without passing the header. Nested loops are separate
+// entries (LoopBlocks, by contrast, gives the outermost cycles only).
+func NaturalLoops(fn *ssa.Function) []map[*ssa.BasicBlock]bool {
+	var out []map[*ssa.BasicBlock]bool
+	for _, t := range fn.Blocks {
+		for _, h := range t.Succs {
+			if !h.Dominates(t) {
+				continue
+			}
+			body := map[*ssa.BasicBlock]bool{h: true}
+			work := []*ssa.BasicBlock{t}
+			for len(work) > 0 {
+				b := work[len(work)-1]
+				work = work[:len(work)-1]
+				if body[b] {
+					continue
+				}
+				body[b] = true
+				work = append(work, b.Preds...)
+			}
+			out = append(out, body)
+		}
+	}
+	return out
+}
